@@ -61,9 +61,14 @@ func detBytes(n, salt int) []byte {
 const l1Manifest = `{"schemaVersion":2,"mediaType":"application/vnd.oci.image.manifest.v1+json","config":{"mediaType":"application/vnd.oci.image.config.v1+json","digest":"sha256:44136fa355b3678a1146ad16f7e8649e94fb4fc21fe77e8310c060f61caaff8a","size":2},"layers":[]}`
 const l1Manifest2 = `{"schemaVersion":2,"mediaType":"application/vnd.oci.image.manifest.v1+json","config":{"mediaType":"application/vnd.oci.image.config.v1+json","digest":"sha256:44136fa355b3678a1146ad16f7e8649e94fb4fc21fe77e8310c060f61caaff8a","size":2},"layers":[],"annotations":{"n":"2"}}`
 
+// l1Slots is the per-host concurrency limit used at L1 (more than one logical
+// request can ever take, so a leaked slot cannot dead-lock the case itself).
+const l1Slots = 8
+
 type l1LR struct {
 	req        L1Req
 	start, end int
+	called     time.Duration // harness clock (starts just after the model's) when Do was called
 	err        error
 	status     int
 	body       []byte
@@ -75,7 +80,7 @@ type l1LR struct {
 }
 
 func newWorld(c Case) *world {
-	w := &world{m: rm.New(), spec: map[string]HostSpec{}, host: map[string]*rm.Host{}, blobLen: map[string]int{}, limit: c.Limit, nMirror: len(c.Mirrors)}
+	w := &world{m: rm.New(), t0: time.Now(), spec: map[string]HostSpec{}, host: map[string]*rm.Host{}, blobLen: map[string]int{}, limit: c.Limit, nMirror: len(c.Mirrors)}
 	w.dInit, _ = c.delays()
 	for i, ms := range c.Mirrors {
 		n := mirrorName(i)
@@ -89,8 +94,45 @@ func newWorld(c Case) *world {
 	return w
 }
 
-// runL1 executes the logical requests of an L1 case.
+// slackSigs are verdicts that rest on an upper bound of the client's reaction
+// time (see checkOrder): they are only reported when three independent
+// executions of the case agree.
+var slackSigs = map[string]bool{"retry-after-host-tried-first-while-others-available": true}
+
+// runL1 executes an L1 case (and repeats it to confirm a slack based verdict).
 func runL1(c Case, ev *evid.Collector) (vs []*evid.Violation, inconclusive string) {
+	vs, inconclusive = runL1Once(c, ev)
+	for _, v := range vs {
+		if !slackSigs[v.Sig] {
+			continue
+		}
+		for k := 0; k < 2; k++ {
+			again, inc := runL1Once(c, nil)
+			if inc != "" {
+				return nil, inc
+			}
+			found := false
+			for _, x := range again {
+				if x.Sig == v.Sig {
+					found = true
+				}
+			}
+			if !found {
+				// not confirmed: drop the slack based verdict
+				keep := vs[:0]
+				for _, x := range vs {
+					if x.Sig != v.Sig {
+						keep = append(keep, x)
+					}
+				}
+				return keep, ""
+			}
+		}
+	}
+	return vs, inconclusive
+}
+
+func runL1Once(c Case, ev *evid.Collector) (vs []*evid.Violation, inconclusive string) {
 	w := newWorld(c)
 	w.m.Cap = 300
 	blob := detBytes(c.BlobLen, 1)
@@ -109,7 +151,7 @@ func runL1(c Case, ev *evid.Collector) (vs []*evid.Violation, inconclusive strin
 	}
 	w.installFaults()
 
-	hosts := configHosts(c)
+	hosts := configHosts(c, l1Slots)
 	dI, dM := c.delays()
 	cl := reghttp.NewClient(
 		reghttp.WithHTTPClient(w.m.Client()),
@@ -128,6 +170,7 @@ func runL1(c Case, ev *evid.Collector) (vs []*evid.Violation, inconclusive strin
 	defer cancel()
 
 	var lrs []*l1LR
+	var slotLeak *evid.Violation
 	for _, rq := range c.Reqs {
 		if rq.GapMs > 0 {
 			time.Sleep(time.Duration(rq.GapMs) * time.Millisecond)
@@ -191,6 +234,7 @@ func runL1(c Case, ev *evid.Collector) (vs []*evid.Violation, inconclusive strin
 			}
 		}
 		lr.start = w.m.Requests()
+		lr.called = time.Since(w.t0)
 		resp, err := cl.Do(ctx, req)
 		lr.err = err
 		if err == nil {
@@ -208,6 +252,30 @@ func runL1(c Case, ev *evid.Collector) (vs []*evid.Violation, inconclusive strin
 		}
 		lr.end = w.m.Requests()
 		lrs = append(lrs, lr)
+		// state predicate behind "every operation terminates": once a logical request is
+		// finished and closed, every per-host concurrency slot it took is free again
+		for _, n := range w.names {
+			q := cl.GetThrottle(n)
+			var rel []func()
+			for k := 0; k < l1Slots; k++ {
+				fn, _ := q.TryAcquire(context.Background(), reqmeta.Data{Kind: reqmeta.Query})
+				if fn == nil {
+					break
+				}
+				rel = append(rel, fn)
+			}
+			for _, fn := range rel {
+				fn()
+			}
+			if len(rel) < l1Slots && slotLeak == nil {
+				slotLeak = evid.V("throttle-slot-leaked-after-short-read-retry", "after logical request %d (%s %s) had completed and was closed, host %s has only %d of its %d concurrency slots free: "+
+					"a slot taken for this request was never released (with the default of 3 slots per host the 4th request would wait forever)\n%s",
+					len(lrs)-1, rq.Method, rq.Target, short(n), len(rel), l1Slots, dumpLog(w.m.Entries()[lr.start:lr.end]))
+			}
+		}
+		if slotLeak != nil {
+			break
+		}
 		if ctx.Err() != nil {
 			return nil, "watchdog: L1 case exceeded 90 s"
 		}
@@ -260,8 +328,10 @@ func runL1(c Case, ev *evid.Collector) (vs []*evid.Violation, inconclusive strin
 		key += fmt.Sprintf("|h%d p%d %s %s", i, s.Prio, s.Has, wordString(s.Word, s.Tail))
 	}
 	key += fmt.Sprintf("|lim%d", c.Limit)
-	ev.Case(hit > 0 || len(c.Mirrors) > 0, key, classes...)
-	ev.Sample(c)
+	if ev != nil {
+		ev.Case(hit > 0 || len(c.Mirrors) > 0, key, classes...)
+		ev.Sample(c)
+	}
 
 	// ---- oracles
 	add := func(v *evid.Violation) {
@@ -269,6 +339,7 @@ func runL1(c Case, ev *evid.Collector) (vs []*evid.Violation, inconclusive strin
 			vs = append(vs, v)
 		}
 	}
+	add(slotLeak)
 	// (2) termination by count
 	if w.m.CapHit() {
 		add(evid.V("request-cap-exceeded", "the %d logical requests of the case issued more than %d HTTP requests\n%s", len(c.Reqs), w.m.Cap, dumpLog(es[:40])))
@@ -305,11 +376,12 @@ func runL1(c Case, ev *evid.Collector) (vs []*evid.Violation, inconclusive strin
 	// (4) + (5)
 	var groups []group
 	for _, lr := range lrs {
-		groups = append(groups, group{start: lr.start, end: lr.end, read: (lr.req.Method == "GET" || lr.req.Method == "HEAD") && !lr.req.NoMirrors})
+		groups = append(groups, group{start: lr.start, end: lr.end, called: lr.called, read: (lr.req.Method == "GET" || lr.req.Method == "HEAD") && !lr.req.NoMirrors})
 	}
 	for _, v := range w.analyseLog(es, logOpts{sequential: true, groups: groups, backsOff: func(e *rm.Entry) bool {
 		lr := lrOf(e)
-		return lr != nil && !lr.req.IgnoreErr
+		// a body cut behind the part the caller reads is never noticed by the client
+		return lr != nil && !lr.req.IgnoreErr && !(lr.req.Partial && e.Fault == "truncate")
 	}}) {
 		add(v)
 	}
